@@ -74,9 +74,11 @@ META = {
     "C14": dict(level="proof",
                 text="The LTMADS construction as structural postconditions/intermediate assertions on the real generator for every outcome of its random draws, every D and every mesh ratio, "
                      "plus a machine-checked Lean 4/Mathlib lemma (non-singularity of the transposed row-permuted lower-triangular matrix with non-zero diagonal, invariance under column scaling, "
-                     "positive spanning of {+-d_i}); the poll loop evaluates at most 2D points.",
-                note=PROOF_NOTE + " np.random.randint / permutation, np.tril, np.eye, np.transpose are trusted primitive models. The clause 'every polled point == incumbent + mesh * direction, each direction once' "
-                     "is checked on real runs by the bounded panel, and the generator is additionally enumerated exhaustively for D <= 3 (bounded)."),
+                     "positive spanning of {+-d_i}); the poll loop evaluates at most 2D points; the displacement matrix is mesh x direction x poll scale, the real candidate filter (no projection) only selects "
+                     "rows of its input, and the polled point is a row of the poll set.",
+                note=PROOF_NOTE + " np.random.randint / permutation, np.tril, np.eye, np.transpose are trusted primitive models. The clause 'every polled point == incumbent + mesh * direction' is under contract link by link only: the loop invariant joining the three links above "
+                     "did not discharge (quantifier instantiation) and is not registered; the end-to-end clause and 'each direction once' "
+                     "are checked on real runs by the bounded panel, and the generator is additionally enumerated exhaustively for D <= 3 (bounded)."),
     "C18": dict(level="proof",
                 text="In the real ESSearch.__call__, for every number of ES generations, every population size and every outcome of the candidate filter (including generations with no survivor): "
                      "the proposal is one of the surviving candidates, carries that candidate's acquisition value, no surviving candidate of any generation has a lower value, and all of them lie in the "
@@ -92,8 +94,9 @@ META = {
                      "the documented beta_t.",
                 note=PROOF_NOTE + " The length-scaled metric udist is not verified (its result vector is a ghost; ordering and selection are proved relative to it) - its value is only "
                      "recomputed in the bounded layer. gp.predict / gp.update are assumed contracts on gpyreg (T4: predict pure, update leaves the training set alone). "
-                     "That the pair passed to add_and_update_gp at its call site is the one just returned by the logger, and that local_gp_fitting stores the selected set unchanged, "
-                     "are checked on real runs by the bounded panel only."),
+                     "The pair passed to add_and_update_gp at its two call sites is the latest evaluation (precondition pair_is_the_latest_evaluation, discharged in _search_step_ and _poll_step_ as "
+                     "restricted entries: the loop invariants of those functions are discharged under C18 / C14); that local_gp_fitting stores the selected set unchanged "
+                     "is checked on real runs by the bounded panel only."),
     "C16": dict(level="proof",
                 text="For every number (< 10 in a row per refit; any finite number for the initial training) and placement of linear-algebra failures of GP.fit / GP.update(hyp=), the three real "
                      "functions that call them let no exception escape, the retry loops terminate, and every retry hands gpyreg a consistent training set (inputs, targets and noise variances "
